@@ -1,6 +1,6 @@
 SPECIFICATION Spec
 CONSTANTS
   Vals = {0, 1, 2, 9, 10, 16, 171, 255, 256}
-  Alphabet = {48, 49, 97, 102, 70, 58, 103, 32}
+  Alphabet = {48, 49, 97, 102, 70, 58, 103, 32, 43, 45}
 INVARIANTS RoundTrip RejectsCorrupted InvalidIsError LayoutInv
 CHECK_DEADLOCK FALSE
